@@ -37,6 +37,49 @@ CHECKS = {
         "Trusted: boundary predicates, midpoint table typed from the trait documentation. One open known finding (F2, round_century for years divisible by 100) is suppressed by signature.",
         "DESIGN.md §4 C11",
     ),
+
+    "C02": (
+        "explicit-state BFS closure over the complete op table (depth 3 quick / 4 thorough, deduplicated by value) plus a flat sweep of all dates x 25 operations x 3 types; invariant: every returned value in its documented range",
+        "From boundary pools of the six types every safe public operation (constructors, conversions, all add/sub variants, last day of month, 24 trunc/round methods, negate, float scaling, format->parse) is applied with every operand of the operand alphabets, successors are deduplicated and expanded again to the depth bound; every returned value must lie inside the documented range of its type, and wherever an exact i128 / calendar result exists and lies outside the range the call must fail instead of returning a wrapped or clamped value. The flat sweep applies all trunc/round/last-day operations to every date on the three types.",
+        "Trusted: documented ranges typed in from the property; reference steps in optable.rs. States not reachable within the depth bound from the pools are not covered; float-operand operations only get the range invariant here (C08/C14/C16 decide their values).",
+        "DESIGN.md §4 C02",
+    ),
+    "C08": (
+        "BFS closure restricted to linear operations in exact lock step with i128 arithmetic, full cross product of typed boundary pools for every linear operation with inverse laws, all dates x day offsets, exact-rational band for fractional days",
+        "Every linear operation (date +/- days, date/timestamp +/- time and day-time interval, all difference variants, interval +/- interval) is executed on the real code for the full cross product of the boundary pools and for every transition of the closure, and must equal exact 128-bit arithmetic: Ok(exact) iff the exact result is inside the result type's range, Err otherwise; x+i-i = x, (x+i)-x = i and a-b = -(b-a) are checked through the real code; every date is crossed with day offsets reaching exactly and one past each range end; Timestamp::add_days/sub_days is compared with the exact rational product rounded to the nearest microsecond.",
+        "Trusted: i128 arithmetic, exact.rs rational arithmetic. i64 operands that are neither pool members nor reachable in the closure are not covered.",
+        "DESIGN.md §4 C08",
+    ),
+    "C12": (
+        "exhaustive enumeration: every second of the day x boundary microseconds x interval alphabet x add/sub; pool^2 differences; interval->time conversion; mixed comparisons, against rem_euclid in i128",
+        "Every second of the day (at µs 0, 1, 999999) is combined with every member of the interval alphabet (0, +/-1 µs, +/-1 day -/+ 1 µs, whole days, the range limits, seed-derived values) through add and sub on the real code and compared with (time +/- interval) mod 24h; all ordered pairs of the time pool and every second against midnight/noon/last µs give the exact signed difference; every second within +/-2 days converts to |interval| mod 1 day; all six comparison operators in both argument orders equal the numeric comparison.",
+        "Trusted: i128 rem_euclid. Intervals outside the alphabet and the +/-2-day second grid are not enumerated.",
+        "DESIGN.md §4 C12",
+    ),
+    "C13": (
+        "exhaustive enumeration of all 2^32 month counts (every one of the 4,272,000,001 year-month intervals), structured day-time interval set, every second within +/-2 days (thorough: +/-40), full constructor validity grids",
+        "Every i32 goes through try_from_months (accepted iff within +/-2,136,000,000); for every accepted value extract, the field constructor, negation (involution, range onto itself), the signed accessors and ordering are compared with integer division; day-time intervals at every power of ten and unit multiple +/-1, every second within the bound, the range limits and i64 extremes get the same treatment; the constructor grids including u32 extremes must accept exactly the tuples whose fields are in bounds and whose total is within the limit.",
+        "Trusted: i128 division. Day-time interval values outside the structured set are not enumerated (the i64 space is not enumerable).",
+        "DESIGN.md §4 C13",
+    ),
+    "C14": (
+        "exhaustive cross product of receiver pools x a float operand alphabet (special values, integers, dyadic and decimal grids, tiny/huge, signed zero, infinities, NaN) x mul/div, judged by exact rational arithmetic with a 2^-52 band",
+        "Each (receiver, operand, operation) triple runs on the real code; the reference decodes the double into sign/mantissa/exponent and computes the real product or quotient as an exact rational; a returned value must be the truncation toward zero of a number within relative 2^-52 of it, exactly x*k when that is an exactly representable integer below 2^53, and errors must be classified as the property states (NaN -> invalid number, infinite result -> numeric overflow, zero divisor -> divide by zero first, finite out-of-range -> interval range); (-x)*k = -(x*k) = x*(-k) is compared directly.",
+        "Trusted: refmodel/exact.rs (big-integer rational arithmetic, unit-tested). Only the operand alphabet is covered, not all doubles.",
+        "DESIGN.md §4 C14",
+    ),
+    "C16": (
+        "exhaustive enumeration of all dates x whole-second critical times x 5 sub-second parts for the conversions; BFS closure with the whole-second invariant on every Oracle-date result; pool cross products; exact-rational nearest-second and correctly-rounded-double oracles",
+        "Every conversion of a timestamp to the Oracle-style date (all dates, critical seconds, sub-second 0/1/499999/500000/999999, also before 1970) must floor to the second; every Oracle-style date produced anywhere in the op-table closure must be a whole second inside the range and equal the exact reference where one exists; adding intervals must equal the timestamp result floored; add_days/sub_days (and the Timestamp::oracle_* variants) must be the nearest second of the exact-rational timestamp result at base dates over the whole range; sub_date must be the correctly rounded quotient for pool^2 and all dates against first/epoch/last.",
+        "Trusted: exact.rs; day-offset alphabet and base dates are a subset of the f64 x i64 space.",
+        "DESIGN.md §4 C16",
+    ),
+    "C17": (
+        "exhaustive differential enumeration: all dates x every shared operation through Date, Timestamp@00:00 and OracleDate@00:00; all dates x whole-second critical times through Timestamp and OracleDate; mixed comparisons in both argument orders",
+        "For every date each shared operation (24 trunc/round, last day of month, +/- year-month and day-time intervals, +/- time, all difference variants) is executed through each of the types and the results must correspond under the embeddings (Err <=> Err included); every date at every whole-second critical time is run through Timestamp and OracleDate; all six comparison operators and partial_cmp for Date/Timestamp, Date/OracleDate and OracleDate/Timestamp in both argument orders must equal the comparison of the converted values.",
+        "No reference model: purely differential, so it cannot see a defect shared by all types (C09-C11 cover those).",
+        "DESIGN.md §4 C17",
+    ),
 }
 
 NOT_BUILT_REASON = "check not built yet in this round (work in progress; planned in DESIGN.md §4) — not claimed until its machinery exists and passes on the unchanged tree"
